@@ -15,6 +15,8 @@ package main
 import (
 	"errors"
 	"fmt"
+	"math/big"
+	"mime/multipart"
 	"os"
 	"reflect"
 	"strings"
@@ -38,6 +40,7 @@ type entry struct {
 	okIn      any
 	badIn     any
 	only      []string // when set: the only ops applicable to this type (sentinels cannot be told apart otherwise)
+	light     bool     // quick tier: wrapper chains only for histories of length <= 1 (string formats: ZodString's engine path, its own Optional/Nilable/Nullish)
 }
 
 var flagOps = []string{"Optional", "Nilable", "Nullish", "NonOptional"}
@@ -175,14 +178,63 @@ func entries() []entry {
 			rule: "nilable", okIn: complex(50, 1), badIn: "notcomplex",
 			only: append([]string{"Default:v", "DefaultFunc:v", "Prefault:v", "PrefaultFunc:v"}, flagOps...)},
 	)
+	// ---- round 4: every remaining schema type of package types that declares modifier methods (Gen/C03Tables.lean
+	// `schemaTypes`; `c03_harness_covers_every_schema_type` is the `decide`d coverage statement) ----
+	fmtE := func(name string, mk func() any, v [4]string) entry {
+		return entry{name: name, mk: mk, valid: strs(v[0], v[1], v[2], v[3]), invalid: strs("!d", "!f", "!p", "!q"), rule: "ptrTy", okIn: v[0], badIn: "!x", light: true}
+	}
+	es = append(es,
+		fmtE("base64", func() any { return gozod.Base64() }, [4]string{"ZHZPSw==", "ZGZPSw==", "cHZPSw==", "cGZPSw=="}),
+		fmtE("base64url", func() any { return gozod.Base64URL() }, [4]string{"ZHZPSw", "ZGZPSw", "cHZPSw", "cGZPSw"}),
+		fmtE("hex", func() any { return gozod.Hex() }, [4]string{"a1", "a2", "a3", "a4"}),
+		fmtE("cidrv4", func() any { return gozod.CIDRv4() }, [4]string{"10.0.0.1/8", "10.0.0.2/8", "10.0.0.3/8", "10.0.0.4/8"}),
+		fmtE("cidrv6", func() any { return gozod.CIDRv6() }, [4]string{"2001:db8::1/32", "2001:db8::2/32", "2001:db8::3/32", "2001:db8::4/32"}),
+		fmtE("ipv4", func() any { return gozod.IPv4() }, [4]string{"10.0.0.1", "10.0.0.2", "10.0.0.3", "10.0.0.4"}),
+		fmtE("ipv6", func() any { return gozod.IPv6() }, [4]string{"2001:db8::1", "2001:db8::2", "2001:db8::3", "2001:db8::4"}),
+		fmtE("url", func() any { return gozod.URL() }, [4]string{"https://a.io/1", "https://a.io/2", "https://a.io/3", "https://a.io/4"}),
+		fmtE("hostname", func() any { return gozod.Hostname() }, [4]string{"dv.example.com", "df.example.com", "pv.example.com", "pf.example.com"}),
+		fmtE("mac", func() any { return gozod.MAC() }, [4]string{"00:11:22:33:44:01", "00:11:22:33:44:02", "00:11:22:33:44:03", "00:11:22:33:44:04"}),
+		fmtE("e164", func() any { return gozod.E164() }, [4]string{"+12025550101", "+12025550102", "+12025550103", "+12025550104"}),
+		fmtE("emoji", func() any { return gozod.Emoji() }, [4]string{"😀", "😁", "😂", "🤣"}),
+		fmtE("cuid", func() any { return gozod.CUID() }, [4]string{"cjld2cjxh0000qzrmn831i7r1", "cjld2cjxh0000qzrmn831i7r2", "cjld2cjxh0000qzrmn831i7r3", "cjld2cjxh0000qzrmn831i7r4"}),
+		fmtE("cuid2", func() any { return gozod.CUID2() }, [4]string{"tz4a98xxat96iws9zmbrgj31", "tz4a98xxat96iws9zmbrgj32", "tz4a98xxat96iws9zmbrgj33", "tz4a98xxat96iws9zmbrgj34"}),
+		fmtE("guid", func() any { return gozod.GUID() }, [4]string{"00000000-0000-0000-0000-000000000001", "00000000-0000-0000-0000-000000000002", "00000000-0000-0000-0000-000000000003", "00000000-0000-0000-0000-000000000004"}),
+		fmtE("uuid", func() any { return gozod.UUID() }, [4]string{"550e8400-e29b-41d4-a716-446655440001", "550e8400-e29b-41d4-a716-446655440002", "550e8400-e29b-41d4-a716-446655440003", "550e8400-e29b-41d4-a716-446655440004"}),
+		fmtE("ulid", func() any { return gozod.ULID() }, [4]string{"01ARZ3NDEKTSV4RRFFQ69G5FAV", "01ARZ3NDEKTSV4RRFFQ69G5FAW", "01ARZ3NDEKTSV4RRFFQ69G5FAX", "01ARZ3NDEKTSV4RRFFQ69G5FAY"}),
+		fmtE("xid", func() any { return gozod.XID() }, [4]string{"9m4e2mr0ui3e8a215n4g", "9m4e2mr0ui3e8a215n50", "9m4e2mr0ui3e8a215n5g", "9m4e2mr0ui3e8a215n60"}),
+		fmtE("ksuid", func() any { return gozod.KSUID() }, [4]string{"0ujtsYcgvSTl8PAuAdqWYSMnLO1", "0ujtsYcgvSTl8PAuAdqWYSMnLO2", "0ujtsYcgvSTl8PAuAdqWYSMnLO3", "0ujtsYcgvSTl8PAuAdqWYSMnLO4"}),
+		fmtE("nanoid", func() any { return gozod.NanoID() }, [4]string{"V1StGXR8_Z5jdHi6B-my1", "V1StGXR8_Z5jdHi6B-my2", "V1StGXR8_Z5jdHi6B-my3", "V1StGXR8_Z5jdHi6B-my4"}),
+		fmtE("jwt", func() any { return gozod.JWT() }, [4]string{"eyJhbGciOiJIUzI1NiIsInR5cCI6IkpXVCJ9.eyJzdWIiOiIxIn0.c2lnMQ", "eyJhbGciOiJIUzI1NiIsInR5cCI6IkpXVCJ9.eyJzdWIiOiIyIn0.c2lnMQ",
+			"eyJhbGciOiJIUzI1NiIsInR5cCI6IkpXVCJ9.eyJzdWIiOiIzIn0.c2lnMQ", "eyJhbGciOiJIUzI1NiIsInR5cCI6IkpXVCJ9.eyJzdWIiOiI0In0.c2lnMQ"}),
+		fmtE("iso", func() any { return gozod.IsoDateTime() }, [4]string{"2024-01-01T00:00:00Z", "2024-01-02T00:00:00Z", "2024-01-03T00:00:00Z", "2024-01-04T00:00:00Z"}),
+		entry{name: "lazyany", mk: func() any { return gozod.LazyAny(func() any { return gozod.String().Min(3) }) },
+			valid: strs("dvOK", "dfOK", "pvOK", "pfOK"), invalid: strs("d", "f", "p", "q"), rule: "nilable", okIn: "hello", badIn: "x"},
+		entry{name: "bigint", mk: func() any { return gozod.BigInt().Min(big.NewInt(10)) },
+			valid: [4]any{big.NewInt(11), big.NewInt(12), big.NewInt(13), big.NewInt(14)}, invalid: [4]any{big.NewInt(1), big.NewInt(2), big.NewInt(3), big.NewInt(4)},
+			rule: "nilable", okIn: big.NewInt(50), badIn: big.NewInt(5)},
+		entry{name: "file", mk: func() any { return gozod.File().Min(10) },
+			valid: [4]any{&multipart.FileHeader{Filename: "dv", Size: 11}, &multipart.FileHeader{Filename: "df", Size: 12}, &multipart.FileHeader{Filename: "pv", Size: 13}, &multipart.FileHeader{Filename: "pf", Size: 14}},
+			invalid: [4]any{&multipart.FileHeader{Filename: "dv", Size: 1}, &multipart.FileHeader{Filename: "df", Size: 2}, &multipart.FileHeader{Filename: "pv", Size: 3}, &multipart.FileHeader{Filename: "pf", Size: 4}},
+			rule: "nilable", okIn: &multipart.FileHeader{Filename: "in", Size: 50}, badIn: &multipart.FileHeader{Filename: "in", Size: 5}},
+		// a function schema has no check of its own: the sentinels are four distinct functions, told apart by code pointer
+		entry{name: "function", mk: func() any { return gozod.Function() },
+			valid: [4]any{fnDV, fnDF, fnPV, fnPF}, invalid: [4]any{fnDV, fnDF, fnPV, fnPF}, rule: "nilable", okIn: fnIn, badIn: "notafunc",
+			only: append([]string{"Default:v", "DefaultFunc:v", "Prefault:v", "PrefaultFunc:v"}, flagOps...)},
+	)
 	return es
 }
+
+func fnDV() int { return 1 }
+func fnDF() int { return 2 }
+func fnPV() int { return 3 }
+func fnPF() int { return 4 }
+func fnIn() int { return 5 }
 
 // ownPath: the engine model does not speak about this schema's nil path — discriminated union and lazy have a private
 // one, and Record's pointer variants (after Optional/Nilable/Nullish) fail every Parse in a type-local conversion
 // (known finding record:pointer-variant-conversion). Such cases are judged by the specification only.
 func ownPath(e *entry, h []string) bool {
-	if e.name == "du" || e.name == "lazy" {
+	if e.name == "du" || e.name == "lazy" || e.name == "lazyany" {
 		return true
 	}
 	if e.name == "record" {
@@ -313,12 +365,22 @@ func classify(e *entry, res any, err error) string {
 	d := deref(res)
 	names := []string{"default:value", "default:func", "prefault:value", "prefault:func"}
 	for i := 0; i < 4; i++ {
-		if reflect.DeepEqual(d, e.valid[i]) || reflect.DeepEqual(d, e.invalid[i]) {
+		if sameSentinel(d, e.valid[i]) || sameSentinel(d, e.invalid[i]) {
 			// sentinels of the four sources are pairwise distinct except for types without a check
 			return names[i]
 		}
 	}
 	return fmt.Sprintf("other:%v", d)
+}
+
+// sameSentinel: is the (dereferenced) result the sentinel? Pointer-valued sentinels (*big.Int, *multipart.FileHeader)
+// are compared by what they point to, functions by code pointer.
+func sameSentinel(d any, sentinel any) bool {
+	sv := deref(sentinel)
+	if d != nil && sv != nil && reflect.TypeOf(d).Kind() == reflect.Func && reflect.TypeOf(sv).Kind() == reflect.Func {
+		return reflect.ValueOf(d).Pointer() == reflect.ValueOf(sv).Pointer()
+	}
+	return reflect.DeepEqual(d, sv)
 }
 
 func parse(s any, in reflect.Value) (res any, err error, pm string) {
@@ -418,7 +480,13 @@ func norm(v any) any {
 	return v
 }
 
-func same(a, b any) bool { return reflect.DeepEqual(norm(a), norm(b)) }
+func same(a, b any) bool {
+	a, b = deref(a), deref(b)
+	if a != nil && b != nil && reflect.TypeOf(a).Kind() == reflect.Func && reflect.TypeOf(b).Kind() == reflect.Func {
+		return reflect.ValueOf(a).Pointer() == reflect.ValueOf(b).Pointer()
+	}
+	return reflect.DeepEqual(norm(a), norm(b))
+}
 
 // leaf names the innermost value of a term: which source of the history it came from, the nil payload
 // (nil, or the zero value a type's Transform wrapper derives from a nil pointer), or the validated input.
@@ -596,6 +664,16 @@ func runWrapped(o *hx.Out, e *entry, h []string, stack string) {
 
 func main() {
 	c := hx.ParseFlags()
+	if len(c.Args) >= 2 && c.Args[0] == "gen" {
+		if err := os.MkdirAll(c.OutDir, 0o755); err == nil {
+			err = runGen(c.Args[1], c.OutDir)
+			if err == nil {
+				return
+			}
+			fmt.Fprintln(os.Stderr, "translator:", err)
+		}
+		os.Exit(3)
+	}
 	o, err := hx.NewOut(c.OutDir)
 	if err != nil {
 		fmt.Fprintln(os.Stderr, err)
@@ -643,7 +721,14 @@ func main() {
 			if !runHistory(o, e, h) {
 				continue
 			}
-			for _, st := range stacksFor(r, h, hi < nExhaustive, c.Thorough()) {
+			sts := stacksFor(r, h, hi < nExhaustive, c.Thorough())
+			if e.light && !c.Thorough() {
+				if len(h) > 1 {
+					continue
+				}
+				sts = allStacks[:6]
+			}
+			for _, st := range sts {
 				runWrapped(o, e, h, st)
 			}
 		}
@@ -720,7 +805,7 @@ func runHistory(o *hx.Out, e *entry, h []string) bool {
 			obs = "panic " + p1 + p2
 		case (e1 == nil) != (e2 == nil):
 			obs = fmt.Sprintf("diff:verdict mod=%v base=%v", e1 == nil, e2 == nil)
-		case e1 == nil && !reflect.DeepEqual(deref(r1), deref(r2)):
+		case e1 == nil && !same(r1, r2):
 			obs = fmt.Sprintf("diff:value mod=%v base=%v", deref(r1), deref(r2))
 		}
 		o.Emit(fmt.Sprintf("c03 val %s #%s in=%v", strings.Join(h, " "), e.name, in), obs)
